@@ -47,6 +47,8 @@ try:
             r = sh('cd %s && git apply %s' % (d, patch))
             assert r.returncode == 0, r.stdout
         hooks = os.path.join(out, 'demo_hooks.diff')
+        if name == 'clean' and a.hooks_clean == 'none':
+            continue        # the pause point lives in code only the patch has: the clean tree runs without it
         if name == 'clean' and a.hooks_clean:
             hooks = os.path.join(out, a.hooks_clean)
         if os.path.exists(hooks) and a.use_hooks:
